@@ -3,6 +3,7 @@
 mod art;
 mod cli;
 mod dfs;
+mod ess;
 mod flags;
 mod hball;
 mod llp;
@@ -60,6 +61,7 @@ fn main() {
         "dfs" => dfs::run(seed, count, maxn, &mode, &mut out),
         "hball" => hball::run(seed, count, maxn, &mode, &mut out),
         "llp" => llp::run(seed, count, maxn, &mode, &args, &mut out),
+        "ess" => ess::run(seed, count, maxn, &mode, &mut out),
         "probe" => probe::run(&mode),
         "cli" => cli::run(seed, count, maxn, &mut out),
         "visit" => visit::run(seed, count, maxn, &mode, &mut out),
